@@ -236,13 +236,22 @@ def model_worker(job):
                 summary['violations'].append({'class': v.cls, 'detail': v.detail, 'site': '*', 'replay': dict(replay_base, run=None)})
         n_runs = job['runs_per_model']
         runs = prof['gen_runs'](rng.fork('runs'), mb, n_runs)
-        results = worldA.run_tapes(mb, ''.join(tapes.render(r) for r in runs))
-        if len(results) != len(runs):
-            raise worldA.HarnessError(f'model {job["index"]}: {len(runs)} tapes, {len(results)} results')
         stats = summary['stats']
         seen_classes = set()
         covered = set()
-        for run, res in zip(runs, results):
+
+        def executed():
+            # histories are parsed and judged in chunks: a thorough batch (tens of thousands of runs per model) would not
+            # fit into memory at once
+            chunk = 400
+            for start in range(0, len(runs), chunk):
+                part = runs[start:start + chunk]
+                results = worldA.run_tapes(mb, ''.join(tapes.render(r) for r in part))
+                if len(results) != len(part):
+                    raise worldA.HarnessError(f'model {job["index"]}: {len(part)} tapes, {len(results)} results')
+                yield from zip(part, results)
+
+        for run, res in executed():
             vs = prof['judge'](mb, run, res)
             prof['collect'](mb, run, res, stats, covered)
             summary['runs'] += 1
